@@ -140,7 +140,9 @@ func (r *rawResponseWriter) finish(snapshotHeaders http.Header) {
 	}
 
 	internal.AddHeaders(resp.Headers, r.respWriter.Header())
-	r.respWriter.Header()["Date"] = nil // suppress automatic date header
+	if _, ok := r.respWriter.Header()["Date"]; !ok {
+		r.respWriter.Header()["Date"] = nil // suppress automatic date header
+	}
 	// We must pre-declare trailers to make sure that chunked encoding is used and
 	// trailers can actually be sent.
 	for _, hdr := range resp.Trailers {
